@@ -192,8 +192,10 @@ def str2num(x, signed=True, n_word=None, n_frac=None, base=10, return_sizes=Fals
         _n_word_max = None
         _n_frac_max = None
 
-        for idx, v in enumerate(x):
-            x[idx], _signed, _n_word, _n_frac = str2num(v, signed, n_word, n_frac, base, return_sizes=True)
+        val = []
+        for v in x:
+            _val, _signed, _n_word, _n_frac = str2num(v, signed, n_word, n_frac, base, return_sizes=True)
+            val.append(_val)
 
             _signed = _signed_max or _signed
             if _n_word is not None:
@@ -201,7 +203,6 @@ def str2num(x, signed=True, n_word=None, n_frac=None, base=10, return_sizes=Fals
             if _n_frac is not None:
                 _n_frac_max = _n_frac if _n_frac_max is None else max(_n_frac_max, _n_frac)
 
-        val = x
         signed = signed or _signed
         n_word = _n_word_max if n_word is None else n_word
         n_frac = _n_frac_max if n_frac is None else n_frac
